@@ -2,8 +2,9 @@
 // what it no longer owns, and only that") through the whole-core simulator.
 //
 //	input  := (K KV0 (ACTION…))      K tasks per environment, KV0: mesos_fid pre-seeded
-//	ACTION := (env POINT) | (kill) | (term) | (drop clean|abrupt) | (destroy N) | (stubborn silent|killing)
+//	ACTION := (env POINT) | (kill) | (term) | (drop clean|abrupt [heal]) | (destroy N) | (stubborn silent|killing)
 //	        | (park N destroy|cleanup) (env configured|running|standby)… (unpark)
+//	        | (hide) | (mute) | (heal)      what the master can report in answer to a RECONCILE, see world.go
 //	POINT  := launching | configuring | configured | starting | running | stopping | standby | teardown | destroyed
 //	obs    := (EV…)  see world.go:observation and lean/Driver/C18.lean
 package c18
@@ -211,6 +212,124 @@ func randomOverlap(r *rng.R) fw.Case {
 	return cs(s, "random", "overlap", "via:"+via, fmt.Sprintf("meanwhile:%d", m))
 }
 
+// resubs: SEVERAL subscriptions in one life of the core, with reconciliation answers that are not all complete.
+// The master answers an implicit RECONCILE with what it knows at that moment: after a master fail-over the agents
+// have not re-registered yet, an agent can be partitioned away ((hide): the tasks alive now are left out of the
+// answers), the request itself can be lost ((mute)). (heal) ends both; as a suffix of (drop …) it does so while the
+// stream is down. The property speaks about "every task of its previous life that Mesos still reports as alive" at
+// "every point at which the master connection is dropped and re-established": an orphan the first answer of a life
+// did not show must be killed when a LATER subscription's answer shows it (Spec.C18.orphansKilledEachSubscription:
+// the KILL is newer than the latest SUBSCRIBE of the life), any number of incomplete rounds earlier; the tasks the
+// new life owns itself are spared in every round; and every SUBSCRIBE after the first accepted one — of a core in
+// its FIRST life, nothing persisted when it started, just as of a later one — presents the framework id the core
+// was given (Spec.C18.identityKept / oneFramework, evaluated on the SUBSCRIBE/SUBSCRIBED pairs of the trace).
+// The scripts that heal WITHOUT a later subscription (tag late) are the class of the open finding
+// late_orphan_never_reconciled: the core reconciles on SUBSCRIBED only, never again.
+func resubs() []fw.Case {
+	var out []fw.Case
+	n := 0
+	add := func(kv0 bool, tags []string, acts ...action) {
+		n++
+		out = append(out, cs(mk(1+n%2, kv0, acts...), append([]string{"resub"}, tags...)...))
+	}
+	env := func(p string) action { return action{"env", p} }
+	hide, mute, heal, kill := action{"hide", ""}, action{"mute", ""}, action{"heal", ""}, action{"kill", ""}
+	drop := func(k string) action { return action{"drop", k} }
+	// the first answer of the new life misses the orphan, the answer after a re-subscription shows it
+	add(false, []string{"missed:hide", "rounds:2"}, env("running"), hide, kill, drop("clean heal"))
+	add(false, []string{"missed:hide", "rounds:2"}, env("configured"), hide, kill, drop("abrupt heal"))
+	add(false, []string{"missed:mute", "late", "rounds:2"}, env("running"), mute, kill, drop("clean heal"))
+	add(false, []string{"missed:mute", "late", "rounds:2", "point:launching"}, env("launching"), mute, kill, drop("abrupt heal"))
+	add(true, []string{"missed:hide", "rounds:2", "kv0"}, env("standby"), hide, kill, drop("clean heal"))
+	// two incomplete rounds before the complete one
+	add(false, []string{"missed:hide", "rounds:3"}, env("running"), hide, kill, drop("clean"), drop("abrupt heal"))
+	add(false, []string{"missed:mute", "late", "rounds:3"}, env("configured"), mute, kill, drop("abrupt"), drop("clean heal"))
+	// a PARTIAL first answer: the second environment's tasks are reported (and killed) at once, the first one's later
+	add(false, []string{"missed:hide", "partial", "rounds:2"}, env("running"), hide, env("configured"), kill, drop("clean heal"))
+	// the new life owns an environment when the orphan shows up at last: kill the one, spare the other
+	add(false, []string{"missed:hide", "owning", "rounds:2"}, env("configured"), hide, kill, env("running"), drop("clean heal"))
+	add(false, []string{"missed:mute", "late", "owning", "rounds:2"}, env("running"), mute, kill, env("configured"), drop("abrupt heal"))
+	// the orphan shows up in round 2, outlives its KILL and must be killed again in round 3
+	add(false, []string{"missed:hide", "stubborn:silent", "rounds:3"}, env("running"), hide, action{"stubborn", "silent"}, kill, drop("clean heal"), drop("abrupt"))
+	// missed by the first answers of TWO lives
+	add(false, []string{"missed:hide", "lives:3", "rounds:2"}, env("running"), hide, kill, kill, drop("clean heal"))
+	// the core's OWN tasks are left out of one answer and reported by the next: spared both times
+	add(false, []string{"own-hidden", "rounds:3"}, env("running"), hide, drop("clean"), drop("abrupt heal"))
+	// reconnections of a core in its first life next to live environments: same framework, nothing killed
+	add(false, []string{"first-life", "rounds:4"}, env("running"), drop("clean"), drop("abrupt"), env("configured"), drop("clean"))
+	add(false, []string{"first-life", "rounds:3", "point:starting"}, env("configured"), drop("abrupt"), env("starting"), drop("clean"))
+	// healed without a later subscription: the core never asks again (open finding late_orphan_never_reconciled)
+	add(false, []string{"missed:hide", "late"}, env("running"), hide, kill, heal)
+	add(false, []string{"missed:mute", "late"}, env("configured"), mute, kill, heal)
+	add(false, []string{"missed:hide", "late", "rounds:2"}, env("running"), hide, kill, heal, drop("clean"))
+	return out
+}
+
+// randomResub: 1-2 environments of the first life, (hide) after the first or after both, or (mute); a restart;
+// possibly an environment of the new life; then 1-3 stream drops, ONE of which heals (or, 1 in 5, a (heal) on its
+// own: the late class). Sometimes the orphans are stubborn as well, sometimes the first life reconnects first.
+func randomResub(r *rng.R) fw.Case {
+	s := &scenario{k: r.Range(1, 3), kv0: r.P(1, 8)}
+	how := rng.Pick(r, []string{"hide", "hide", "mute"})
+	tags := []string{"random", "resub", "missed:" + how}
+	if how == "mute" {
+		// the master REPORTS the orphan alive all along, only the request was lost: every quiet point of the new life
+		// before the healing re-subscription is in the late class
+		tags = append(tags, "late")
+	}
+	s.acts = append(s.acts, action{"env", rng.Pick(r, settledPoints[:3])})
+	if r.P(1, 4) {
+		s.acts = append(s.acts, action{"drop", rng.Pick(r, []string{"clean", "abrupt"})})
+	}
+	second := r.P(1, 2)
+	if second && how == "hide" && r.P(1, 2) {
+		// only the first environment's tasks are hidden: a partial answer
+		s.acts = append(s.acts, action{how, ""})
+		how = ""
+		tags = append(tags, "partial")
+	}
+	if second {
+		if r.P(1, 2) {
+			s.acts = append(s.acts, action{"env", rng.Pick(r, inflightPoints)})
+		} else {
+			s.acts = append(s.acts, action{"env", rng.Pick(r, settledPoints[:3])})
+		}
+	}
+	if how != "" {
+		s.acts = append(s.acts, action{how, ""})
+	}
+	if r.P(1, 4) {
+		m := rng.Pick(r, stubbornModes)
+		s.acts = append(s.acts, action{"stubborn", m})
+		tags = append(tags, "stubborn:"+m)
+	}
+	s.acts = append(s.acts, action{"kill", ""})
+	if r.P(1, 3) {
+		s.acts = append(s.acts, action{"env", rng.Pick(r, settledPoints[:3])})
+		tags = append(tags, "owning")
+	}
+	if r.P(1, 5) {
+		s.acts = append(s.acts, action{"heal", ""})
+		if how != "mute" {
+			tags = append(tags, "late")
+		}
+		if r.P(1, 2) {
+			s.acts = append(s.acts, action{"drop", rng.Pick(r, []string{"clean", "abrupt"})})
+		}
+		return cs(s, tags...)
+	}
+	nd := r.Range(1, 3)
+	at := r.N(nd)
+	for i := 0; i < nd; i++ {
+		k := rng.Pick(r, []string{"clean", "abrupt"})
+		if i == at {
+			k += " heal"
+		}
+		s.acts = append(s.acts, action{"drop", k})
+	}
+	return cs(s, append(tags, fmt.Sprintf("rounds:%d", nd+1))...)
+}
+
 var settledPoints = []string{"configured", "running", "standby", "destroyed"}
 var inflightPoints = []string{"launching", "configuring", "starting", "stopping", "teardown"}
 
@@ -263,9 +382,9 @@ func randomScenario(r *rng.R) fw.Case {
 
 func generate(tier string, r *rng.R) []fw.Case {
 	out := grid()
-	n, ns, no := 12, 6, 4
+	n, ns, no, nr := 12, 6, 4, 6
 	if tier == "thorough" {
-		n, ns, no = 320, 80, 60
+		n, ns, no, nr = 320, 80, 60, 80
 	}
 	for i := 0; i < n; i++ {
 		out = append(out, randomScenario(r.Fork()))
@@ -278,6 +397,10 @@ func generate(tier string, r *rng.R) []fw.Case {
 	out = append(out, overlaps()...)
 	for i := 0; i < no; i++ {
 		out = append(out, randomOverlap(r.Fork()))
+	}
+	out = append(out, resubs()...)
+	for i := 0; i < nr; i++ {
+		out = append(out, randomResub(r.Fork()))
 	}
 	return out
 }
@@ -292,6 +415,9 @@ func search(r *rng.R) []fw.Case {
 	}
 	for i := 0; i < 30; i++ {
 		out = append(out, randomOverlap(r.Fork()))
+	}
+	for i := 0; i < 30; i++ {
+		out = append(out, randomResub(r.Fork()))
 	}
 	return out
 }
@@ -360,20 +486,26 @@ func init() {
 			"new life owning an environment, 3 lives} + 6 (thorough 80) random ones. OVERLAPS (tag overlap): one environment is torn down (via:destroy = DestroyEnvironment, " +
 			"via:cleanup = DestroyEnvironment keeping the tasks + CleanupTasks) while the master holds the answers to its KILL calls back, i.e. doKillTasks sits between its two " +
 			"roster writes, 0-2 other environments are deployed in that window (meanwhile:N; also: created before / after it), then the answers go out and a re-subscription " +
-			"(or a restart) follows: 10 fixed scripts + 4 (thorough 60) random ones. Every disturbance is bracketed by barrier-ordered quiet points " +
+			"(or a restart) follows: 10 fixed scripts + 4 (thorough 60) random ones. RESUBSCRIPTIONS (tag resub): several subscriptions in one life against a master whose " +
+			"reconciliation answers are not all complete — (hide): the agents of the tasks alive now are not registered with the master (fail-over, partition), implicit reconciliation leaves the " +
+			"tasks out until (heal); (mute): RECONCILE calls are lost until (heal); (drop … heal): healed while the stream is down — so that an orphan the first answer of a new life (or of two " +
+			"lives) did not show is shown by the answer after a later re-subscription (rounds:2|3, partial answers, new life owning an environment, stubborn, the core's own tasks hidden and shown " +
+			"again), reconnections of a core in its first life next to live environments (first-life), and the late class (heal without a later subscription; every mute script: open finding " +
+			"late_orphan_never_reconciled): 18 fixed scripts + 6 corpus lines + 6 (thorough 80) random ones. A re-subscription that presents another framework id than the one the core was given ends the " +
+			"script (observed, not a deadline). Every disturbance is bracketed by barrier-ordered quiet points " +
 			"(GetTasks, GetEnvironments with the tasks every environment holds, mesos_fid, master's live rows). non-trivial = the master answered a reconciliation about at least one real task; distinct by input text",
 		Shrink:     shrink,
 		Search:     search,
 		Workers:    8,
 		Exhaustive: func(string) bool { return false },
 		TrustedBase: []string{
-			"harness/sim (whole-core simulator: Mesos master/agents/executors, Consul KV, workflow repository; core child through core.RunForVerif) + sim.InjectUpdate (added for the barrier) + sim.HoldCalls (keeps the HTTP answer of chosen calls back: a call in flight)",
+			"harness/sim (whole-core simulator: Mesos master/agents/executors, Consul KV, workflow repository; core child through core.RunForVerif) + sim.InjectUpdate (added for the barrier) + sim.HoldCalls (keeps the HTTP answer of chosen calls back: a call in flight) + sim.HideFromReconcile / SetReconcileSilent (implicit reconciliation leaves chosen tasks out / RECONCILE calls go unanswered)",
 			"harness/props/c18/world.go: scripts, barrier-based quiescence, projection of the master trace (tasks, environments, framework ids renamed by first appearance)",
 			"lean/Driver/C18.lean: the monitor that replays the observed trace as a history of Model/Reconcile.lean and rebuilds the log the Spec is evaluated on",
 			"go/ast fact extraction harness/props/c18/facts.go",
 		},
 		Assumptions: []string{
-			"Mesos' reconciliation semantics as documented upstream (implicit reconciliation is answered with the latest state of every non-terminal task of the framework; SUBSCRIBE with a framework id keeps it); the simulator stands in for the master",
+			"Mesos' reconciliation semantics as documented upstream (implicit reconciliation is answered with the latest state of every non-terminal task of the framework THE MASTER KNOWS at that moment — tasks of agents that are not registered are left out, a request can be lost; SUBSCRIBE with a framework id keeps it, without one a new framework is registered); the simulator stands in for the master",
 			"the configuration store answers the read of aliecs/mesos_fid at start-up and accepts its write (the core cannot start without it); nobody else writes the key",
 			"one core process at a time; the framework is not PARTITION_AWARE (no TASK_UNREACHABLE)",
 			"quiescence is established by a barrier (a reconciliation update about an unknown task, answered by a KILL), which relies on taskman handling its channel sequentially and on the KILL call being synchronous — both read in core/task/manager.go",
